@@ -124,10 +124,14 @@ void make_values(const vf_type *T, int m, int n, uint64_t pat, int scheme, dmat 
         case 10: v = 1.0 + 1e-9 * ((h % 7) - 3); break;
         case 11: v = ((h % 2) ? -1.0 : 1.0) * (1.0 + (h % 5)) * pow(1e-5, (double)i); break;   /* row graded */
         case 12: v = ((h % 2) ? -1.0 : 1.0) * (1.0 + (h % 5)) * pow(1e-4, (double)j); break;   /* column graded */
+        case 13: case 14: {   /* entries above the diagonal of a column sum exactly to minus the entries on and below it: the mass an incomplete
+                                 factorization drops from U cancels every pivot candidate of a modified-ILU column (13: dropped sum positive, 14: negative) */
+            int kj = 0; for (int t = 0; t < j && t < m; t++) kj += vf_pat_bit(m, n, pat, t, j);
+            v = (i < j) ? 0.5 / (kj ? kj : 1) : -0.5; if (scheme == 14) v = -v; break; }
         default: v = 1.0;
         }
         double _Complex z = v;
-        if (T->cplx && scheme != 0) z = v * phase(i + 2 * j);
+        if (T->cplx && scheme != 0 && scheme != 13 && scheme != 14) z = v * phase(i + 2 * j);
         DM(A, i, j) = (xc)z; DZ(A, i, j) = 1;
     }
 }
